@@ -237,6 +237,9 @@ def c09() -> int:
         needs=["c09:refused:ChargeStation", "c09:refused:ReserveBase", "c09:refused:ChargeBase", "c09:refused:DispatchStation", "c09:refused:DispatchTrip", "c09:entered:ChargeBase"])
     fsx(c, RES + ({"variant": "core", "name": "W-res/atomic-pairs", "atomic_pairs": True},), ("hivemc.bundles", "c09_atomicity", {}), K=1, H=4 if quick else 5,
         needs=["c09:pairs"])
+    # the request world with pooling: instructions naming requests that do not exist, empty pooling plans
+    fsx(c, REQ + ({"requests": ["p0", "p1", "r2"], "name": "W-req/pooling/atomic", "prestart": ("p0", "p1")},), ("hivemc.bundles", "c09_atomicity", {}), K=2, H=5 if quick else 7,
+        needs=["c09:refused:Pool", "c09:refused:DispatchTrip"])
     fsx(c, ("hivemc.w_prec", "make", {}), ("hivemc.bundles", "c09_precedence", {}), K=2 if quick else 3, H=6 if quick else 8,
         needs=["c09:winner:driver", "c09:winner:G1", "c09:winner:G2", "c09:both_generators_same_vehicle"])
     return c.finish()
